@@ -28,7 +28,7 @@ ASSUMPTIONS = ['xxh64 is an external: theorems hold for every hash that is injec
                'collisions"); the driver\'s own XXH64 is validated against xxhash on every cell',
                'column names of the input frame are pairwise distinct (pandas returns a sub-frame for a duplicated name)',
                'values are str (the pipeline parses text); len() counts code points like Lean String.length; no lone surrogates',
-               'reference_model_JSON = "" (the reference-model branches are outside this property)',
+               'reference_model_JSON = "" in the modelled families; interactions requested through a reference model (mixed arities) are judged by the oracle alone',
                'nrows >= 1']
 
 DIGITS = ['', '1', '11', '111', '12', '2', '21', '0', '01', '10', '1111']
@@ -377,16 +377,91 @@ def corpus():
     ]
 
 
+def gen_reference_case(rng):
+    """interaction features requested through --reference_model_JSON: combinations of DIFFERENT arity in one model file"""
+    names = rng.sample(['f0', 'f1', 'f2', 'f3', 'g', 'user id', 'é'], rng.choice([3, 4, 5]))
+    n = rng.choice([2, 3, 5, 9, 20])
+    cols = [[nm, [rng.choice(DIGITS + ['x', 'xx', 'x1']) for _ in range(n)]] for nm in names]
+    cols.insert(rng.randrange(len(cols) + 1), ['label', [rng.choice(['0', '1']) for _ in range(n)]])
+    combos = []
+    for _ in range(rng.choice([1, 2, 3, 4])):
+        c = tuple(rng.sample(names, rng.choice([2, 2, 3, min(4, len(names))])))
+        if sorted(c) not in [sorted(x) for x in combos]:
+            combos.append(c)
+    return {'reference': True, 'cols': cols, 'combos': [list(c) for c in combos], 'singles': rng.sample(names, rng.choice([0, 1, 2])),
+            'order': rng.choice([1, 1, 2])}
+
+
+def evaluate_reference(ctx: Ctx, cases):
+    import json
+    import os
+    import tempfile
+
+    import pandas as pd
+    from outrank import core_ranking as cr
+    for c in cases:
+        ctx.evaluations += 1
+        ctx.count('reference-model-interactions')
+        arities = sorted({len(x) for x in c['combos']})
+        ctx.count('reference-arities:' + ','.join(map(str, arities)))
+        df = pd.DataFrame({nm: vals for nm, vals in c['cols']})
+        fd, path = tempfile.mkstemp(suffix='.json', prefix='c10ref_')
+        os.close(fd)
+        try:
+            with open(path, 'w') as fh:
+                json.dump({'desc': {'features': list(c['singles']) + [','.join(x) for x in c['combos']]}}, fh)
+            args = types.SimpleNamespace(label_column='label', interaction_order=c['order'], combination_number_upper_bound=1000, reference_model_JSON=path,
+                                         heuristic='MI-numba-randomized')
+            cr.GLOBAL_PRIOR_COMB_COUNTS.clear()
+            show = (f'reference model with the interactions {c["combos"]} (interaction_order={c["order"]}) on the frame '
+                    f'{[(nm, v[:6]) for nm, v in c["cols"]]}')
+            try:
+                out = cr.compute_combined_features(df.copy(), args, PB(), False)
+            except Exception as e:   # noqa: BLE001
+                ctx.oracle_fail('reference-raises', f'{show}: compute_combined_features raised {type(e).__name__}: {e}', {'reference_case': c})
+                continue
+        finally:
+            cr.GLOBAL_PRIOR_COMB_COUNTS.clear()
+            os.unlink(path)
+        k = df.shape[1]
+        if list(out.columns[:k]) != list(df.columns) or not out.iloc[:, :k].equals(df):
+            ctx.oracle_fail('originals', f'{show}: the original columns changed', {'reference_case': c})
+            continue
+        new = {str(nm): [str(v) for v in out.iloc[:, j].tolist()] for j, nm in enumerate(out.columns) if j >= k}
+        want = [' AND '.join(sorted(x)) for x in c['combos']]
+        missing = [w for w in want if w not in new]
+        if missing:
+            ctx.oracle_fail('reference-missing', f'{show}: no column {missing[0]!r} among the new columns {sorted(new)}', {'reference_case': c})
+            continue
+        colv = dict((nm, v) for nm, v in c['cols'])
+        for nm, vals in new.items():
+            parts = nm.split(' AND ')
+            if not all(p in colv for p in parts):
+                continue
+            tuples = list(zip(*[colv[p] for p in parts]))
+            if pattern(vals) != pattern(tuples):
+                i, j = next((i, j) for i in range(len(vals)) for j in range(len(vals)) if (vals[i] == vals[j]) != (tuples[i] == tuples[j]))
+                ctx.oracle_fail('kernel', f'{show}: column {nm!r}: rows {i} and {j} have constituent values {tuples[i]} / {tuples[j]} but interaction values '
+                                f'{vals[i]} / {vals[j]}', {'reference_case': c})
+                break
+        else:
+            if len(arities) > 1:
+                ctx.nontrivial.add(repr(c))
+
+
 def run(ctx: Ctx):
     n = 30000 if ctx.thorough() else 1500
     cases = corpus() + [gen_case(ctx.rng, ctx.thorough()) for _ in range(n)]
     evaluate(ctx, cases)
+    evaluate_reference(ctx, [gen_reference_case(ctx.rng) for _ in range(3000 if ctx.thorough() else 300)])
     birthday(ctx, 400_000 if ctx.thorough() else 200_000)
 
 
 def replay(ctx: Ctx, payload):
     c = payload['case']
-    if 'birthday' in c:
+    if 'reference_case' in c:
+        evaluate_reference(ctx, [c['reference_case']])
+    elif 'birthday' in c:
         birthday(ctx, c['birthday'])
     else:
         evaluate(ctx, [c])
@@ -397,5 +472,6 @@ def search(ctx: Ctx):
     sub.rng.seed(f'search:{ctx.seed}')
     cases = [gen_case(sub.rng, True) for _ in range(3200)]
     evaluate(sub, cases, oracle_only=True)
+    evaluate_reference(sub, [gen_reference_case(sub.rng) for _ in range(1500)])
     birthday(sub, 400_000)
     return sub.oracle_failures
